@@ -471,6 +471,8 @@ impl Buffer {
         }
 
         let cur_time = Utc::now();
+        #[cfg(icy_engine_verif)]
+        let cur_time = crate::verif_hooks::now_utc(cur_time);
         let date_time = cur_time.format("%Y%m%d").to_string();
         assert_eq!(date_time.len(), 8);
         vec.extend(date_time.bytes());
